@@ -4,7 +4,8 @@ A contract may declare ghost={"independent_iterations": {<loop ordinal>: [accumu
 *sufficient* condition for "what one iteration reports depends only on the element it processes, never on the elements before it":
   (1) every local variable assigned in the body (other than the loop targets and the accumulators) is definitely assigned before it is
       read on every path of the body - nothing computed for an earlier element can flow into a later one;
-  (2) an accumulator is only extended (`acc += ...`, `acc.append/extend(...)`), never read, rebound or shrunk;
+  (2) an accumulator is only extended (`acc += ...`, `acc.append/extend(...)`, a cell assignment `acc[k] = v` / `acc.at[i, c] = v`),
+      never read, rebound or shrunk;
   (3) the loop has no `break` (every element is processed).
 Each condition becomes an obligation `<cid>:independent:loop<k>.<what>`; a failing one carries the variable and line as its reason.
 Object fields written through parameters are NOT covered here (they are frame obligations of the symbolic run)."""
@@ -87,6 +88,15 @@ class Analysis:
             new = set(defined)
             for t in s.targets:
                 if isinstance(t, (ast.Attribute, ast.Subscript)):
+                    base = t
+                    while isinstance(base, (ast.Attribute, ast.Subscript)):
+                        base = base.value
+                    if isinstance(base, ast.Name) and base.id in self.accs:
+                        # acc[k] = v / acc.at[i, c] = v: one cell of the accumulator is written (the index expressions are ordinary reads)
+                        for sub in ast.walk(t):
+                            if isinstance(sub, ast.Subscript):
+                                self.use(sub.slice, defined)
+                        continue
                     self.use(t, defined)
                 names = set()
                 _targets(t, names)
